@@ -2,6 +2,6 @@ SPECIFICATION Spec
 CONSTANTS Devs = {}
           Cases <- MCSel
           Family = "MConc3"
-INVARIANTS TypeOK VisitedSafe VisitedExact DepthShortest FetchedExact LocalExact HandlerCidRight
+INVARIANTS TypeOK VisitedSafe VisitedExact DepthShortest FetchedExact LocalExact HandlerCidRight HandlerOwnFailure
            HandlerCallsRight ProvidedExact ResultRight NoHandlerCrash
 PROPERTY Termination
